@@ -155,7 +155,7 @@ pub fn eval_entry(e: &Entry, f: usize, s: &str) -> Outcome {
 // ---------------------------------------------------------------------------------------------
 // requests and their faults
 
-pub const FAULT_NAMES: [&str; 30] = [
+pub const FAULT_NAMES: [&str; 31] = [
     "truncate",
     "replace_char",
     "delete_char",
@@ -186,6 +186,7 @@ pub const FAULT_NAMES: [&str; 30] = [
     "long_input",
     "invisible_prefix_or_suffix",
     "dialect_copula",
+    "foreign_format_item",
 ];
 
 #[derive(Clone, Debug)]
@@ -302,7 +303,7 @@ fn gen_request(ch: &mut Choices, gp: &GenParams, fault_rate: u32, f: usize) -> R
     let a_punct = || it.punct.clone().unwrap_or_else(|| fmt.sentence.punctuation_judgement.to_string());
     let a_stamp = || it.stamp.clone().filter(|s| !s.is_empty()).unwrap_or_else(|| fmt.format_stamp(&Stamp::Present));
     // item-level and character-level faults; index 0 (truncate) is the "simplest"
-    let which = ch.weighted(&[14, 8, 6, 8, 9, 7, 5, 5, 5, 4, 4, 7, 5, 4, 3, 3, 1, 1, 3, 3, 2, 3, 6, 5, 5, 3, 4, 2, 4, 4]);
+    let which = ch.weighted(&[14, 8, 6, 8, 9, 7, 5, 5, 5, 4, 4, 7, 5, 4, 3, 3, 1, 1, 3, 3, 2, 3, 6, 5, 5, 3, 4, 2, 4, 4, 5]);
     faults.push(which);
     let text = match which {
         0 => {
@@ -507,6 +508,25 @@ fn gen_request(ch: &mut Choices, gp: &GenParams, fault_rate: u32, f: usize) -> R
             let n = [3usize, 10, 40, 90][ch.choose(4) as usize];
             format!("{}{full}", open.repeat(n))
         }
+        30 => {
+            // one item pasted in another format's vocabulary, the rest written in this one
+            let g = (f + 1 + ch.choose(2) as usize) % 3;
+            let gfmt = &ENUM_FORMATS[g];
+            let (mut b, mut p, mut s, mut t) = (it.budget.clone(), it.punct.clone().or_else(|| Some(a_punct())), it.stamp.clone(), it.truth.clone());
+            match ch.weighted(&[50, 20, 15, 15]) {
+                0 => {
+                    s = Some(match ch.choose(4) {
+                        0 => gfmt.format_stamp(&Stamp::Present),
+                        1 => gfmt.format_stamp(&Stamp::Future),
+                        _ => gfmt.format_stamp(&Stamp::Fixed([0isize, 42, 137, -1][ch.choose(4) as usize])),
+                    })
+                }
+                1 => t = Some(gfmt.format_truth(&Truth::Double(0.5, 0.9))),
+                2 => b = Some(gfmt.format_budget(&Budget::Single(0.5))),
+                _ => p = Some(gfmt.format_punctuation(&Punctuation::Judgement)),
+            }
+            join(&[&b, &term, &p, &s, &t])
+        }
         _ => {
             // the input ends while a number is still being read / a number is malformed before its bracket
             let sep = fmt.sentence.truth_separator;
@@ -538,7 +558,7 @@ enum Op {
 
 #[derive(Default, Clone)]
 pub struct SessionsRunStats {
-    pub faults: [u64; 30],
+    pub faults: [u64; 31],
     pub requests: u64,
     pub requests_faulty: u64,
     pub ops: u64,
